@@ -486,7 +486,7 @@ func (c *Check) setDecoders(rule string) {
 			continue
 		}
 		apps := p.callsIn(fn, descIs("builtin:append"))
-		okA := len(apps) == 1 && inLoop(apps[0].Block())
+		okA := len(apps) == 1 && inLoop(apps[0].Block()) && everyIteration(apps[0].(ssa.Instruction))
 		adv := elementLoopAdvance(fn, s.step)
 		if !(okA && adv) && len(apps) == 0 && inPlaceElementLoop(fn, s.step) {
 			okA, adv = true, true
